@@ -137,8 +137,9 @@ fn section_header_with_name<'sc>(
             log::warn!("invalid sh_name offset for {:?}", name);
             continue;
         }
-        if sh_name + name.len() as u64 >= strtab_section_header.sh_size {
-            // This can't be a match.
+        if sh_name + name.len() as u64 > strtab_section_header.sh_size {
+            // This can't be a match (`name` includes the terminator, so it may end exactly at the
+            // end of the table).
             continue;
         }
         let Some(name_offset) = strtab_section_header.sh_offset.checked_add(sh_name) else {
